@@ -17,10 +17,15 @@ META = {
              "in range, floats, bool, strings, []byte, slices, maps, pointers, time) comes back unchanged through the value slot and "
              "through a map-body field, with or without omitempty; closed witnesses time_value_truncated, struct_value_dropped, "
              "nil_body_field_unreadable, omitempty_normalises, gob_nil_empty_witness; holds_of_good for repaired flags."),
-    "note": ("Trusted: Lean kernel (propext, Classical.choice, Quot.sound); extract/c22.go; harness/c22.go + the verif accessors in "
-             "sdk/go/hydraidego/verif_export.go. Parameters (assumed lawful on non-empty containers, tested): gob / msgpack codecs; "
-             "msgpack of scalars inside the map body; IEEE float conversions. Arrays and non-UTF-8 strings are refused with an explicit "
-             "error and are outside the claim. Profile models key fields by Go field name; they are outside the tag question."),
+    "note": ("PROVED (Lean, all inputs): tag classification agreement iff head comparison (slots_agree); value round trip per kind through "
+             "the extracted conversion tables incl. integer width/sign of every hop, omitempty, overwrite (convert_roundtrip, body_roundtrip, "
+             "Values.holds_of_good) and the closed witnesses. TESTED end to end on every run (real SDK + gRPC + in-process server, compared with "
+             "the model line by line): 25 Go field types x boundary/random values x {catalog value, map-body field, profile field} x "
+             "{omitempty on/off}, overwrite of a stored value, tag interference on save/read. PARAMETERS (assumed lawful on non-empty "
+             "containers, tested): gob / msgpack codecs, msgpack of scalars inside the map body, IEEE float conversions, protobuf "
+             "transport. Arrays and non-UTF-8 strings are refused with an explicit error and are outside the claim. Trusted: Lean kernel "
+             "(propext, Classical.choice, Quot.sound); extract/c22.go, extract/c22val.go; harness/c22*.go + sdk verif_export.go. The "
+             "patch-expired result decoder (third tag classifier) is fixed but not modelled."),
     "design_ref": "§8 C22",
 }
 
